@@ -324,6 +324,7 @@ def table():
     """namespace -> name -> (function, kind, attributes); kind in first/data/state. Includes liquer.ext.basic's
     state-variable commands (their undecorated functions)."""
     import liquer.ext.basic as B
+    import liquer.ext.lq_pandas  # noqa: registers the data-frame state type (and its commands, dropped by the reset)
 
     t = {"root": {}, "alt": {}}
     for f in FIRST:
